@@ -3,6 +3,8 @@ package main
 import (
 	"fmt"
 	"go/token"
+	"go/types"
+	"sort"
 	"strings"
 
 	"golang.org/x/tools/go/ssa"
@@ -14,7 +16,7 @@ func init() {
 		Title:       "User tokens verify only if minted under the configured keys and unexpired",
 		DesignRef:   "DESIGN.md §3 C15",
 		Technique:   "checked must-pass-through chains per key mode on security.UserInfo (edge-cut reachability on go/ssa; every writer of the claims struct must be a verified decode whose failure blocks the accepting exit) + mint/verify sibling agreement + guarded reachability in web.TokenInfo",
-		LevelText:   "Static: UserInfo returns a nil error only after a checked Validate(issuer constant, now); every call that can fill the claims is the Claims step of one of the two frozen chains (nested: ParseSignedAndEncrypted{dir,A128CBC-HS256,HS256} -> Decrypt(UserEncryptionKey) -> Claims(UserSigningKey); encrypt-only: ParseEncrypted{dir,A128CBC-HS256} -> Claims(UserEncryptionKey)) and its failure makes the accepting return unreachable; the encrypt-only chain runs only when no signing key is configured and the nested chain only when one is; the mint side never serialises with jwt.Signed alone, uses the same algorithms, keys, issuer and a constant lifetime <= 5 min. TokenInfo writes claims only over err == nil, answers 405/400/403 on the refusing branches, and no value derived from the claims reaches the response on an error path.",
+		LevelText:   "Static: UserInfo returns a nil error only after a checked Validate(issuer constant, now); every call that can fill the claims is the Claims step of one of the two frozen chains (nested: ParseSignedAndEncrypted{dir,A128CBC-HS256,HS256} -> Decrypt(UserEncryptionKey) -> Claims(UserSigningKey); encrypt-only: ParseEncrypted{dir,A128CBC-HS256} -> Claims(UserEncryptionKey)) and its failure makes the accepting return unreachable; the encrypt-only chain runs only when no signing key is configured and the nested chain only when one is; the mint side never serialises with jwt.Signed alone, uses the same algorithms, keys, issuer and a constant lifetime <= 5 min. TokenInfo writes claims only over err == nil, answers 405/400/403 on the refusing branches, and no value derived from the claims reaches the response on an error path. The token endpoint and the first-party code it calls write no package variable and use no process-wide container, so every answer comes from a verification made for that request (a cache would outlive the token's expiry); the errors UserInfo returns are not built from the decoded claims, because the endpoint copies the error text into its 403 body.",
 		LevelNote:   "Trusted: go-jose JWE/JWS cryptography and allow-list enforcement. Not decided: behaviour per mutated token segment (library).",
 		Explanation: "C15/verify-chain identifies the two chains by callee and argument shape, demands that each accepting return is cut off by the failure edge of every executed step, and that the claims struct has no other writer. C15/mode-agreement checks the guards selecting each chain against the mint side's predicate. C15/mint checks the builders, keys, issuer and expiry of GenerateUserToken. C15/http checks the branches of web.TokenInfo.",
 		Assumptions: []string{"the zero jwt.Claims cannot satisfy a non-empty expected issuer (so a path on which nothing was decoded is refused by Validate)"},
@@ -24,10 +26,16 @@ func init() {
 			{"C15/mint", "GenerateUserToken: always encrypted (never jwt.Signed alone), keys/algorithms/issuer as verified, lifetime <= 5 min, key length guard", c15Mint},
 			{"C15/alg-lists", "every jose/jwt Parse* call in first-party code has exactly the frozen constant allow-lists; no unverified-claims API", func(c *Ctx) { algInventory(c, "C15/alg-lists"); c.Floor("C15/alg-lists", 4, "4 parse sites") }},
 			{"C15/config-keys", "config.Load passes the configured user-token keys on unchanged (the encryption key may only be replaced by a fresh random one)", c15ConfigKeys},
-			{"C15/key-defaults", "config.Load's defaults carry no value for the user-token keys: a built-in key would pass the length test and be the same on every installation", func(c *Ctx) { keyDefaults(c, "C15/key-defaults", []string{"Security.UserTokenEncryptionKey", "Security.UserTokenSigningKey"}) }},
+			{"C15/key-defaults", "config.Load's defaults carry no value for the user-token keys: a built-in key would pass the length test and be the same on every installation", func(c *Ctx) {
+				keyDefaults(c, "C15/key-defaults", []string{"Security.UserTokenEncryptionKey", "Security.UserTokenSigningKey"})
+			}},
 			{"C15/http", "TokenInfo: claims written only over err == nil; 405 / 400 / 403 on the refusing branches; nothing derived from the claims on error paths", c15HTTP},
+			{"C15/stateless", "every answer comes from a verification made for this request: TokenInfo and what it calls write no package variable and use no process-wide container (cache, map, pool)", c15Stateless},
+			{"C15/silent-refusal", "the errors UserInfo returns for a refused token are not built from the decoded claims (TokenInfo copies the error text into the 403 body)", c15SilentRefusal},
 			{"C15/key-wiring", "main copies the configured user-token keys into the variables the verifier reads", func(c *Ctx) { keyWiring(c, "C15/key-wiring", "UserEncryptionKey", "UserSigningKey") }},
-			{"C15/config-tags", "the configuration fields this property depends on are read from the documented keys: koanf tag = lower-cased field name", func(c *Ctx) { configTags(c, "C15/config-tags", map[string][]string{"Configuration": {"Security"}, "SecurityConfig": {"UserTokenEncryptionKey", "UserTokenSigningKey", "EnableUserToken"}}) }},
+			{"C15/config-tags", "the configuration fields this property depends on are read from the documented keys: koanf tag = lower-cased field name", func(c *Ctx) {
+				configTags(c, "C15/config-tags", map[string][]string{"Configuration": {"Security"}, "SecurityConfig": {"UserTokenEncryptionKey", "UserTokenSigningKey", "EnableUserToken"}})
+			}},
 			{"C15/same-user", "the download handler mints the user token for the same user value as the gateway token", func(c *Ctx) { sameUserForTokens(c, "C15/same-user") }},
 		},
 	})
@@ -547,4 +555,187 @@ func c15ConfigKeys(c *Ctx) {
 	if n == 0 {
 		c.OK(rule, "config.Load user-token keys", load.Pos(), "no store to the user-token keys in Load")
 	}
+}
+
+// c15Stateless: whether a token verifies depends on the clock, so every answer of the endpoint
+// has to come from a verification made for this request. The endpoint and everything it calls
+// in first-party code keep nothing between requests: package variables are only read (the
+// configured keys and issuer, written at start-up), none is written, and none is a container
+// (map, sync.Map, cache, pool, channel) that request code operates on — a cache of verified
+// claims answers for a token after it has expired.
+func c15Stateless(c *Ctx) {
+	rule := "C15/stateless"
+	root := c.Fn("cmd/rdpgw/web", "TokenInfo")
+	seen := map[*ssa.Function]bool{}
+	var walk func(f *ssa.Function, d int)
+	walk = func(f *ssa.Function, d int) {
+		if f == nil || seen[f] || f.Blocks == nil || !IsFirstParty(f) {
+			return
+		}
+		seen[f] = true
+		for _, a := range f.AnonFuncs {
+			walk(a, d)
+		}
+		if d <= 0 {
+			return
+		}
+		for _, ci := range callsIn(f) {
+			walk(ci.Common().StaticCallee(), d-1)
+		}
+	}
+	walk(root, 6)
+	uses := c.globalUses(func(fn *ssa.Function) bool { return seen[fn] })
+	var gs []*ssa.Global
+	for g := range uses {
+		gs = append(gs, g)
+	}
+	sort.Slice(gs, func(i, j int) bool { return gs[i].String() < gs[j].String() })
+	n := 0
+	for _, g := range gs {
+		name := strings.TrimPrefix(g.Pkg.Pkg.Path(), modPath+"/") + "." + g.Name()
+		elem := g.Type().(*types.Pointer).Elem()
+		written, method := false, false
+		var first gUse
+		for _, u := range uses[g] {
+			if u.write && !written {
+				written, first = true, u
+			}
+			if u.method && !method {
+				method = true
+				if !written {
+					first = u
+				}
+			}
+		}
+		_, isMap := elem.Underlying().(*types.Map)
+		n++
+		switch {
+		case written:
+			c.Bad(rule, "global "+name, first.pos, "package variable %s is written while a token request is served (%s): an answer can depend on an earlier request instead of this request's verification", name, first.fn)
+		case method && (isContainerType(elem) || isMap):
+			c.Bad(rule, "global "+name, first.pos, "package-level %s of type %s is used while a token request is served (%s): a store that outlives the request — a verdict or claims kept in it are answered after the token has expired", name, elem, first.fn)
+		default:
+			c.OK(rule, "global "+name, g.Pos(), "only read while a token request is served (configured at start-up)")
+		}
+	}
+	c.OK(rule, "scope", root.Pos(), "%d first-party functions reachable from TokenInfo, %d package variables referenced", len(seen), n)
+	c.Floor(rule, 3, "scope + the two configured keys")
+}
+
+// c15SilentRefusal: a refused token discloses no claims. TokenInfo copies UserInfo's error
+// text into the 403 body (C15/http checks that it uses nothing else of a refused token), so
+// the errors UserInfo returns must not be built from the claims it decoded: no field of the
+// claims value (and not the value itself) reaches the construction of a returned error. The
+// library's own validation error (Claims.Validate) names the failed check, not the values.
+func c15SilentRefusal(c *Ctx) {
+	rule := "C15/silent-refusal"
+	fn := c.Fn("cmd/rdpgw/security", "UserInfo")
+	isClaims := func(t types.Type) bool {
+		if p, ok := t.Underlying().(*types.Pointer); ok {
+			t = p.Elem()
+		}
+		return typeIs(t, "github.com/go-jose/go-jose/v4/jwt", "Claims")
+	}
+	var hit func(v ssa.Value, seen map[ssa.Value]bool, d int) (bool, token.Pos)
+	hit = func(v ssa.Value, seen map[ssa.Value]bool, d int) (bool, token.Pos) {
+		if v == nil || seen[v] || d > 40 {
+			return false, token.NoPos
+		}
+		seen[v] = true
+		sub := func(xs ...ssa.Value) (bool, token.Pos) {
+			for _, x := range xs {
+				if ok, p := hit(x, seen, d+1); ok {
+					return ok, p
+				}
+			}
+			return false, token.NoPos
+		}
+		switch x := v.(type) {
+		case *ssa.FieldAddr:
+			if isClaims(x.X.Type()) {
+				return true, x.Pos()
+			}
+			return sub(x.X)
+		case *ssa.Field:
+			if isClaims(x.X.Type()) {
+				return true, x.Pos()
+			}
+			return sub(x.X)
+		case *ssa.MakeInterface:
+			if isClaims(x.X.Type()) {
+				return true, x.Pos()
+			}
+			return sub(x.X)
+		case *ssa.Call:
+			if cal := x.Call.StaticCallee(); cal != nil && cal.Pkg != nil && strings.HasPrefix(cal.Pkg.Pkg.Path(), "github.com/go-jose/") {
+				return false, token.NoPos // the library's own errors
+			}
+			args := append([]ssa.Value{}, x.Call.Args...)
+			if x.Call.IsInvoke() {
+				args = append(args, x.Call.Value)
+			}
+			return sub(args...)
+		case *ssa.Extract:
+			return sub(x.Tuple)
+		case *ssa.Phi:
+			return sub(x.Edges...)
+		case *ssa.UnOp:
+			if a, ok := x.X.(*ssa.Alloc); ok && x.Op == token.MUL {
+				// a local: whatever was stored into it
+				var vs []ssa.Value
+				for _, r := range *a.Referrers() {
+					if st, ok := r.(*ssa.Store); ok && st.Addr == ssa.Value(a) {
+						vs = append(vs, st.Val)
+					}
+				}
+				return sub(vs...)
+			}
+			return sub(x.X)
+		case *ssa.BinOp:
+			return sub(x.X, x.Y)
+		case *ssa.ChangeType:
+			return sub(x.X)
+		case *ssa.Convert:
+			return sub(x.X)
+		case *ssa.ChangeInterface:
+			return sub(x.X)
+		case *ssa.IndexAddr:
+			return sub(x.X)
+		case *ssa.Slice:
+			// the variadic argument array: what was stored into its elements
+			if a, ok := x.X.(*ssa.Alloc); ok {
+				var vs []ssa.Value
+				for _, r := range *a.Referrers() {
+					if ia, ok := r.(*ssa.IndexAddr); ok {
+						for _, rr := range *ia.Referrers() {
+							if st, ok := rr.(*ssa.Store); ok && st.Addr == ssa.Value(ia) {
+								vs = append(vs, st.Val)
+							}
+						}
+					}
+				}
+				return sub(vs...)
+			}
+			return sub(x.X)
+		}
+		return false, token.NoPos
+	}
+	n := 0
+	for i, r := range returnsOf(fn) {
+		if len(r.Results) != 2 {
+			continue
+		}
+		errV := unspill(r.Results[1])
+		if isNil(errV) {
+			continue
+		}
+		n++
+		key := fmt.Sprintf("UserInfo return#%d error", i)
+		if ok, pos := hit(errV, map[ssa.Value]bool{}, 0); ok {
+			c.Bad(rule, key, r.Pos(), "the error returned for a refused token is built from the token's claims (%s): TokenInfo copies the error text into the 403 body, so claims of a refused token are disclosed", c.P.Pos(pos))
+		} else {
+			c.OK(rule, key, r.Pos(), "the error text is independent of the decoded claims")
+		}
+	}
+	c.Floor(rule, 3, "refusing returns of UserInfo")
 }
